@@ -62,5 +62,5 @@ func TestVerifC10(t *testing.T) {
 		{SW: [][]uint16{{9, 3}}, SB: [][]uint16{{16000, 65535}, {0}}},
 	}
 	e.SlotSweep(sweeps, vfutil.Scale(7, 1))
-	e.RunGenerated(r, vfutil.Scale(250, 20000), 40, 60)
+	e.RunGenerated(r, vfutil.Scale(800, 8000), 40, 60)
 }
